@@ -339,6 +339,13 @@ int main(int argc, char *argv[])
   if (create_list == 1)
   {
     char filename[1024];
+
+    if (strlen(outfile) + 5 > sizeof(filename))
+    {
+      printf("Error: Output filename is too long.\n");
+      exit(1);
+    }
+
     strcpy(filename, outfile);
 
     new_extension(filename, "lst", 1024);
